@@ -423,16 +423,24 @@ pub fn c33(out: &mut Out, ex: &mut Exec, seed: u64, thorough: bool) {
         a.ld(1, "N"); a.label("L"); a.trap(0x20); a.trap(0x21); a.add_i(1, 1, -1); a.br(1, "L");
         a.lea(0, "S"); a.trap(0x22); a.trap(0x25);
         a.label("N"); a.w(len as u16); a.label("S"); a.w(0x21); a.w(0);
-        let mut v = base_setup(&format!("{id}"), false, false, &a, &input);
+        // with keyboard interrupts enabled the input arrives late: the program must wait in GETC's poll loop
+        let late_input = id % 4 == 2;
+        let mut v = base_setup(&format!("{id}"), false, false, &a, if late_input { &[] } else { &input });
         // every fourth case: another thread has panicked while holding the keyboard / display buffer guard (a poisoned but
         // free lock): delivery must be unaffected
         match id % 8 { 1 => v.push("sim poison kb".into()), 3 => v.push("sim poison ds".into()), 5 => { v.push("sim poison kb".into()); v.push("sim poison ds".into()); } _ => {} }
+        // every fourth case: keyboard interrupts enabled (a not-ready KBSR then reads x4000, not x0000) while the program runs at
+        // priority 7, so the request is never taken and GETC must still wait for the ready bit
+        if id % 4 == 2 { v.push("sim hostwrite fffc 8702 ffff 1 0 0 0".into()); v.push("sim hostwrite fe00 4000 ffff 1 0 0 0".into()); }
         let exhaustive_bits: Option<u32> = if len <= 2 && id < 4000 { Some(rng.next() as u32 & 0xFFFF) } else { None };
         let p_lock = rng.below(40) as u64;
+        // the late-input cases run without lock contention: any failure there is a violation, never the known finding
+        let (exhaustive_bits, p_lock) = if late_input { (None, 0) } else { (exhaustive_bits, p_lock) };
         for l in &v { let r = ex.line(l); out.op(l, &r); }
         let mut last = ex.line("sim state"); out.op("sim state", &last); v.push("sim state".into());
         let mut acc_i = 0u32; let mut denied_critical = vec![]; let (mut kl, mut dl) = (false, false);
         for _step in 0..4000 {
+            if late_input && _step == 40 { let l = format!("sim kbpush {}", input.iter().map(|b| format!("{:02x}", b)).collect::<String>()); let r = ex.line(&l); out.op(&l, &r); v.push(l); }
             let pc = u16::from_str_radix(field(&last, "pc").unwrap_or("0"), 16).unwrap_or(0);
             let dev = acc.iter().find(|(a, _)| *a == pc).map(|(_, t)| *t);
             let (want_k, want_d) = match (dev, exhaustive_bits) {
